@@ -50,6 +50,40 @@ Theorem C39_response_to_own_caller : forall s from id tag,
 Proof. exact response_to_own_caller. Qed.
 Print Assumptions C39_response_to_own_caller.
 
+(** Two hops as one statement: [src] asks through transit [a], which forwards
+    to transit [b] (the frame [a] emits is the request event [b] handles),
+    which forwards on.  Whatever both transits do in between, the answer that
+    reaches [b] under [b]'s id goes to [a] under [a]'s id and to nobody else,
+    and that frame, handled by [a], goes to [src] under [src]'s own id and to
+    nobody else; no local caller of either transit sees it. *)
+Theorem C39_two_hop_roundtrip :
+  forall evsA0 a evsB0 b src oid target pathA tag fa restA h fb restB evsA evsB from rtag,
+  let sA0 := crun_state (cinit a) evsA0 in
+  let sB0 := crun_state (cinit b) evsB0 in
+  out_of (cstep sA0 (CReq src oid target pathA tag)) = [(b, MReq fa target restA tag)] ->
+  out_of (cstep sB0 (CReq a fa target restA tag)) = [(h, MReq fb target restB tag)] ->
+  (forall f t, ~ In (CResp f fa t) evsA) ->
+  (forall f t, ~ In (CResp f fb t) evsB) ->
+  let sA2 := crun_state (st_of (cstep sA0 (CReq src oid target pathA tag))) evsA in
+  let sB2 := crun_state (st_of (cstep sB0 (CReq a fa target restA tag))) evsB in
+  let rB := cstep sB2 (CResp from fb rtag) in
+  let rA := cstep sA2 (CResp b fa rtag) in
+  (out_of rB = cemit (st_of rB) a (MResp fa true rtag) /\ deliv_of rB = []) /\
+  (out_of rA = cemit (st_of rA) src (MResp oid true rtag) /\ deliv_of rA = []).
+Proof. exact two_hop_roundtrip. Qed.
+Print Assumptions C39_two_hop_roundtrip.
+
+(** ... and its premises are satisfiable: 1 asks 4 through transits 9 and 8. *)
+Theorem C39_two_hop_example :
+  let sA0 := crun_state (cinit 9) [CConnect 1; CConnect 8; COriginate 8 5] in
+  let sB0 := crun_state (cinit 8) [CConnect 9; CConnect 4] in
+  out_of (cstep sA0 (CReq 1 7 4 [8; 4] 11)) = [(8, MReq 2 4 [4] 11)] /\
+  out_of (cstep sB0 (CReq 9 2 4 [4] 11)) = [(4, MReq 1 4 [] 11)] /\
+  out_of (cstep (st_of (cstep sB0 (CReq 9 2 4 [4] 11))) (CResp 4 1 99)) = [(9, MResp 2 true 99)] /\
+  out_of (cstep (st_of (cstep sA0 (CReq 1 7 4 [8; 4] 11))) (CResp 8 2 99)) = [(1, MResp 7 true 99)].
+Proof. exact two_hop_example. Qed.
+Print Assumptions C39_two_hop_example.
+
 (** The 64-bit counter.  nextControlID is a Go uint64; the model's counter is
     an unbounded N.  Along every run of fewer than 2^64 events the counter
     never wraps (its value mod 2^64 is its value) and every id in use - own
